@@ -113,3 +113,12 @@ def fee (p : FeeParams) (length steps mem ref : Int) : Option Int :=
 def maxTxFee (p : FeeParams) (ref : Int) : Option Int := fee p p.maxTxSize p.maxTxExSteps p.maxTxExMem ref
 
 end Pyc
+
+namespace Pyc
+
+/-- what `to_cbor()` of a `TransactionBody` / `Transaction` does about negative quantities (after the generic field
+validation reaches nested outputs): it refuses iff some output — in `outputs` or the collateral return — is negative -/
+def bodyRefuses (outs : List Output) (collateralReturn : Option Output) : Bool :=
+  outs.any Output.negative || (match collateralReturn with | some o => Output.negative o | none => false)
+
+end Pyc
